@@ -1,5 +1,286 @@
 package pipe
 
-import "vt/internal/ev"
+import (
+	"fmt"
+	"go/ast"
+	"go/parser"
+	"go/token"
+	"os"
+	"os/exec"
+	"path/filepath"
+	"sort"
+	"strconv"
+	"strings"
 
-func c03File(r *ev.Recorder) {}
+	"pgregory.net/rapid"
+
+	"vt/internal/ev"
+	"vt/internal/modspec"
+	"vt/internal/script"
+)
+
+// ---- C03, file level: the import block of a generated file, confirmed by the compiler ----
+
+type c3fCase struct {
+	ModPath string   `json:"modpath"`
+	Dirs    []string `json:"dirs"` // package directories inside the module (colliding names)
+	Std     []string `json:"std"`  // std references "path.Type"
+	Twice   []int    `json:"twice,omitempty"`
+	OwnRef  bool     `json:"ownref,omitempty"`
+}
+
+var c3fDirPool = []string{
+	"x/go", "y/type", "z/func", "w/range", "auth/2fa", "a/b-c", "a/bc", "abc", "a/b_c", "a/b.c", "k8s/api/core/v1", "k8s/api/apps/v1", "apis/foo/v1", "q/apis/foo/v1",
+	"domain/user", "svc/domain/user", "util", "x/util", "y/util", "json", "enc/json", "template", "t/template", "rand", "v2", "lib/v2", "other/lib/v2", "fmt", "my/fmt",
+	"errors", "p/errors", "a/x", "x", "Bar", "bar", "foo/Bar", "yaml.v3", "in/yaml.v3",
+}
+
+var c3fStdPool = []string{
+	"fmt.Stringer", "text/template.Template", "html/template.Template", "encoding/json.Decoder", "math/rand.Rand", "errors.Unwrap", "sort.Interface", "io/fs.FS", "path/filepath.WalkFunc", "go/token.Pos", "go/ast.Node",
+}
+
+func genC03File(t *rapid.T) c3fCase {
+	c := c3fCase{ModPath: rapid.SampledFrom([]string{"m", "example.com/m", "github.com/org/repo"}).Draw(t, "modpath")}
+	n := rapid.IntRange(2, 8).Draw(t, "ndirs")
+	seen := map[string]bool{}
+	for i := 0; i < n; i++ {
+		d := rapid.SampledFrom(c3fDirPool).Draw(t, "dir")
+		// case-insensitive file systems aside, "Bar" and "bar" are distinct directories on Linux; keep one per lower-case form to stay portable
+		if seen[strings.ToLower(d)] {
+			continue
+		}
+		seen[strings.ToLower(d)] = true
+		c.Dirs = append(c.Dirs, d)
+	}
+	ns := rapid.IntRange(0, 3).Draw(t, "nstd")
+	for i := 0; i < ns; i++ {
+		s := rapid.SampledFrom(c3fStdPool).Draw(t, "std")
+		dup := false
+		for _, e := range c.Std {
+			if e == s {
+				dup = true
+			}
+		}
+		if !dup {
+			c.Std = append(c.Std, s)
+		}
+	}
+	for i := range c.Dirs {
+		if rapid.IntRange(0, 3).Draw(t, "twice") == 0 {
+			c.Twice = append(c.Twice, i)
+		}
+	}
+	c.OwnRef = rapid.Bool().Draw(t, "ownref")
+	return c
+}
+
+func (c c3fCase) module() (modspec.Mod, []string) {
+	m := modspec.Mod{Path: c.ModPath, Go: "1.21"}
+	var refs []string
+	for i, d := range c.Dirs {
+		m.Pkgs = append(m.Pkgs, modspec.Pkg{Dir: d, Name: fmt.Sprintf("pkg%d", i), Files: []modspec.GoFile{{Name: "t.go", Decls: []modspec.Decl{
+			{Kind: "struct", Name: fmt.Sprintf("T%d", i), Fields: []modspec.Field{{Names: []string{"A"}, Type: "int"}}},
+			{Kind: "raw", Text: fmt.Sprintf("type G%d[A, B any] struct {\n\tX A\n\tY B\n}", i)},
+		}}}})
+		refs = append(refs, fmt.Sprintf("%s/%s.T%d", c.ModPath, d, i))
+	}
+	m.Pkgs = append(m.Pkgs, modspec.Pkg{Dir: "target", Name: "target", Files: []modspec.GoFile{{Name: "t.go", Decls: []modspec.Decl{
+		{Kind: "struct", Name: "Target", Fields: []modspec.Field{{Names: []string{"A"}, Type: "int"}}},
+		{Kind: "struct", Name: "Own", Fields: []modspec.Field{{Names: []string{"A"}, Type: "int"}}},
+	}}}})
+	return m, refs
+}
+
+func oracleC03File(c c3fCase) error {
+	m, refs := c.module()
+	dir := tempModule(&m)
+	defer os.RemoveAll(dir)
+	all := append(append([]string{}, refs...), c.Std...)
+	for _, i := range c.Twice {
+		all = append(all, refs[i])
+	}
+	if c.OwnRef {
+		all = append(all, c.ModPath+"/target.Own")
+	}
+	// one generic instantiation over the first two packages
+	text := "\n"
+	for i := range all {
+		if strings.HasSuffix(all[i], ".Unwrap") {
+			text += fmt.Sprintf("var _v%d = @R%d\n\n", i, i) // a function, not a type
+		} else {
+			text += fmt.Sprintf("var _v%d @R%d\n\n", i, i)
+		}
+	}
+	if len(c.Dirs) >= 2 {
+		all = append(all, fmt.Sprintf("%s/%s.G0[%s/%s.T1,%s/%s.T0]", c.ModPath, c.Dirs[0], c.ModPath, c.Dirs[1], c.ModPath, c.Dirs[0]))
+		text += fmt.Sprintf("var _g @R%d\n", len(all)-1)
+	}
+	s := &script.Script{Name: "g", Mode: "fixed", PerType: map[string]script.Action{
+		c.ModPath + "/target.Target": {Render: []script.Piece{{Kind: "t", Text: text, Refs: all}}},
+	}}
+	res := script.Run(script.RunSpec{Dir: dir, Entrypoints: []string{"./target"}, Globals: map[string][]string{"gengo:g": {""}}, Base: "zz_generated", Scripts: []*script.Script{s}})
+	if res.LoadErr != "" {
+		panic("harness: synthetic module does not load: " + res.LoadErr)
+	}
+	if res.Panic != "" {
+		return fmt.Errorf("Execute panics: %s", res.Panic)
+	}
+	if res.Failed {
+		return fmt.Errorf("Execute failed: %s", res.Err)
+	}
+	fn := filepath.Join(dir, "target", "zz_generated.g.go")
+	src, err := os.ReadFile(fn)
+	if err != nil {
+		return fmt.Errorf("generated file missing: %v", err)
+	}
+	fset := token.NewFileSet()
+	f, err := parser.ParseFile(fset, fn, src, 0)
+	if err != nil {
+		return fmt.Errorf("generated file does not parse: %v", err)
+	}
+	// import table of the file
+	byName := map[string]string{}
+	byPath := map[string]string{}
+	for _, im := range f.Imports {
+		p, _ := strconv.Unquote(im.Path.Value)
+		if im.Name == nil {
+			return fmt.Errorf("import %q has no explicit name; the file is:\n%s", p, src)
+		}
+		if err := validImportName(im.Name.Name); err != nil {
+			return fmt.Errorf("import %q: %w", p, err)
+		}
+		if other, dup := byName[im.Name.Name]; dup {
+			return fmt.Errorf("import name %q is bound to %q and %q", im.Name.Name, other, p)
+		}
+		if _, dup := byPath[p]; dup {
+			return fmt.Errorf("package %q is imported twice", p)
+		}
+		byName[im.Name.Name] = p
+		byPath[p] = im.Name.Name
+	}
+	// expected set of foreign packages
+	want := map[string]bool{}
+	for i, d := range c.Dirs {
+		_ = i
+		want[c.ModPath+"/"+d] = true
+	}
+	for _, s := range c.Std {
+		want[s[:strings.LastIndex(s, ".")]] = true
+	}
+	for p := range want {
+		if _, ok := byPath[p]; !ok {
+			return fmt.Errorf("referenced package %q is missing from the import block; the file is:\n%s", p, src)
+		}
+	}
+	for p := range byPath {
+		if !want[p] {
+			return fmt.Errorf("package %q is imported but not referenced; the file is:\n%s", p, src)
+		}
+	}
+	// qualifiers used in the body
+	used := map[string]bool{}
+	var bad error
+	ast.Inspect(f, func(n ast.Node) bool {
+		sel, ok := n.(*ast.SelectorExpr)
+		if !ok {
+			return true
+		}
+		id, ok := sel.X.(*ast.Ident)
+		if !ok {
+			return true
+		}
+		used[id.Name] = true
+		p, ok := byName[id.Name]
+		if !ok {
+			bad = fmt.Errorf("qualifier %q of %s.%s is not bound by the import block", id.Name, id.Name, sel.Sel.Name)
+			return false
+		}
+		// type names are unique per package directory: T<i> / G<i> belong to Dirs[i]
+		name := sel.Sel.Name
+		if len(name) >= 2 && (name[0] == 'T' || name[0] == 'G') {
+			if i, err := strconv.Atoi(name[1:]); err == nil && i < len(c.Dirs) {
+				if p != c.ModPath+"/"+c.Dirs[i] {
+					bad = fmt.Errorf("%s.%s is qualified with the name of %q, the type belongs to %q", id.Name, name, p, c.ModPath+"/"+c.Dirs[i])
+					return false
+				}
+			}
+		}
+		return true
+	})
+	if bad != nil {
+		return fmt.Errorf("%w; the file is:\n%s", bad, src)
+	}
+	for n := range byName {
+		if !used[n] {
+			return fmt.Errorf("import name %q is never used in the body", n)
+		}
+	}
+	if c.OwnRef && strings.Contains(string(src), "target.Own") {
+		return fmt.Errorf("reference to the file's own package is qualified; the file is:\n%s", src)
+	}
+	// the compiler confirms: none missing, none unused, all names valid
+	cmd := exec.Command("go", "build", "./target")
+	cmd.Dir = dir
+	if out, err := cmd.CombinedOutput(); err != nil {
+		o := string(out)
+		if strings.Contains(o, "toolchain") || strings.Contains(o, "cannot find GOROOT") || strings.Contains(o, "go: ") && !strings.Contains(o, ".go:") {
+			panic("harness: go build could not run: " + o)
+		}
+		return fmt.Errorf("the generated file does not compile: %v\n%s\n--- file ---\n%s", err, clip(o, 1500), src)
+	}
+	return nil
+}
+
+func c3fClasses(c c3fCase) []string {
+	fs := map[string]bool{}
+	last := map[string]int{}
+	for _, d := range c.Dirs {
+		seg := d[strings.LastIndex(d, "/")+1:]
+		last[strings.ToLower(strings.NewReplacer("-", "", "_", "", ".", "").Replace(seg))]++
+		if token.Lookup(seg).IsKeyword() {
+			fs["keyword-segment"] = true
+		}
+		if seg[0] >= '0' && seg[0] <= '9' {
+			fs["digit-leading-segment"] = true
+		}
+		if strings.ContainsAny(seg, "-_.") {
+			fs["punctuated-segment"] = true
+		}
+		for _, s := range c3fStdPool {
+			sp := s[:strings.LastIndex(s, ".")]
+			if seg == sp[strings.LastIndex(sp, "/")+1:] {
+				fs["std-reserved-name"] = true
+			}
+		}
+	}
+	for _, n := range last {
+		if n >= 2 {
+			fs["clashing-last-segment"] = true
+		}
+	}
+	if len(c.Std) > 0 {
+		fs["std-import"] = true
+	}
+	out := make([]string, 0, len(fs))
+	for k := range fs {
+		out = append(out, k)
+	}
+	sort.Strings(out)
+	return out
+}
+
+func c03File(r *ev.Recorder) {
+	ev.Search(r, ev.Sub[c3fCase]{
+		Name: "file", Gen: genC03File, Oracle: oracleC03File,
+		NonTrivial: func(c c3fCase) bool {
+			for _, s := range c3fClasses(c) {
+				if s != "std-import" {
+					return true
+				}
+			}
+			return false
+		},
+		Classes: c3fClasses,
+		Budget:  ev.Budget{Quick: 60, Thorough: 400}, MinNonTrivial: 0.3,
+	})
+}
